@@ -173,4 +173,337 @@ theorem readHeader_ok (f : File) (toc : SimpleSection) (n pos : Nat) (h : readHe
   unfold readHeader at h
   exact readHeaderAt_ok f _ (headerStart_rdok f) toc n pos h
 
+/-! ### reader actions: totality and movement of the reader -/
+
+/-- started inside the mapping at a `uint32` position, `m` never panics or diverges, keeps the reader a `uint32`, and
+    when it succeeds its value satisfies `P`, the reader has not moved backwards and still stands inside the mapping -/
+def Good {α} (f : File) (m : RdM α) (P : α → Prop) : Prop :=
+  ∀ r, RdOk r → r.off ≤ f.data.length → Total (m r).1 ∧ RdOk (m r).2 ∧
+    ∀ a, (m r).1 = .ok a → P a ∧ r.off ≤ (m r).2.off ∧ (m r).2.off ≤ f.data.length
+
+/-- like `Good`, and a success moves the reader strictly forward -/
+def Strict {α} (f : File) (m : RdM α) : Prop :=
+  ∀ r, RdOk r → r.off ≤ f.data.length → Total (m r).1 ∧ RdOk (m r).2 ∧
+    ∀ a, (m r).1 = .ok a → r.off < (m r).2.off ∧ (m r).2.off ≤ f.data.length
+
+theorem good_pure {α} (f : File) (a : α) (P : α → Prop) (h : P a) : Good f (RdM.pure a) P := by
+  intro r hr hl
+  refine ⟨by simp [RdM.pure, Total, Outcome.isOkOrErr], hr, ?_⟩
+  intro b hb
+  simp only [RdM.pure] at hb ⊢
+  cases hb
+  exact ⟨h, Nat.le_refl _, hl⟩
+
+theorem good_lift {α} (f : File) (o : Outcome α) (P : α → Prop) (ht : Total o) (hp : ∀ a, o = .ok a → P a) :
+    Good f (RdM.lift o) P := by
+  intro r hr hl
+  exact ⟨ht, hr, fun a ha => ⟨hp a ha, Nat.le_refl _, hl⟩⟩
+
+/-- the reader position after `bind m k` when `m` succeeded -/
+theorem bind_ok_eq {α β} (m : RdM α) (k : α → RdM β) (r : Rd) (a : α) (h : (m r).1 = .ok a) :
+    RdM.bind m k r = k a (m r).2 := by
+  unfold RdM.bind
+  rw [h]
+
+theorem bind_total {α β} (m : RdM α) (k : α → RdM β) (r : Rd) (hm : Total (m r).1)
+    (hk : ∀ a, (m r).1 = .ok a → Total (k a (m r).2).1) : Total (RdM.bind m k r).1 := by
+  unfold RdM.bind
+  cases h : (m r).1 with
+  | ok a => simp only; exact hk a h
+  | err e => simp [Total, Outcome.isOkOrErr]
+  | panic p => rw [h] at hm; simp [Total, Outcome.isOkOrErr] at hm
+  | diverge => rw [h] at hm; simp [Total, Outcome.isOkOrErr] at hm
+
+theorem bind_rdok {α β} (m : RdM α) (k : α → RdM β) (r : Rd) (hm : RdOk (m r).2)
+    (hk : ∀ a, (m r).1 = .ok a → RdOk (k a (m r).2).2) : RdOk (RdM.bind m k r).2 := by
+  unfold RdM.bind
+  cases h : (m r).1 with
+  | ok a => simp only; exact hk a h
+  | err e => exact hm
+  | panic p => exact hm
+  | diverge => exact hm
+
+theorem bind_ok_inv {α β} (m : RdM α) (k : α → RdM β) (r : Rd) (b : β) (h : (RdM.bind m k r).1 = .ok b) :
+    ∃ a, (m r).1 = .ok a ∧ (k a (m r).2).1 = .ok b ∧ (RdM.bind m k r).2 = (k a (m r).2).2 := by
+  unfold RdM.bind at h ⊢
+  cases hm : (m r).1 with
+  | ok a => rw [hm] at h; simp only at h ⊢; exact ⟨a, rfl, h, rfl⟩
+  | err e => rw [hm] at h; cases h
+  | panic p => rw [hm] at h; cases h
+  | diverge => rw [hm] at h; cases h
+
+/-- `Good` composes -/
+theorem good_bind {α β} (f : File) (m : RdM α) (k : α → RdM β) (P : α → Prop) (Q : β → Prop)
+    (hm : Good f m P) (hk : ∀ a, P a → Good f (k a) Q) : Good f (RdM.bind m k) Q := by
+  intro r hr hl
+  obtain ⟨t1, o1, s1⟩ := hm r hr hl
+  refine ⟨?_, ?_, ?_⟩
+  · exact bind_total m k r t1 (fun a ha => ((hk a (s1 a ha).1) _ o1 (s1 a ha).2.2).1)
+  · exact bind_rdok m k r o1 (fun a ha => ((hk a (s1 a ha).1) _ o1 (s1 a ha).2.2).2.1)
+  · intro b hb
+    obtain ⟨a, ha, hkb, heq⟩ := bind_ok_inv m k r b hb
+    obtain ⟨pa, le1, le0⟩ := s1 a ha
+    obtain ⟨_, _, s2⟩ := (hk a pa) _ o1 le0
+    obtain ⟨qb, le2, le3⟩ := s2 b hkb
+    rw [heq]
+    exact ⟨qb, Nat.le_trans le1 le2, le3⟩
+
+/-- a strict action followed by good ones is strict -/
+theorem strict_bind {α β} (f : File) (m : RdM α) (k : α → RdM β) (Q : β → Prop)
+    (hm : Strict f m) (hk : ∀ a, Good f (k a) Q) : Strict f (RdM.bind m k) := by
+  intro r hr hl
+  obtain ⟨t1, o1, s1⟩ := hm r hr hl
+  refine ⟨?_, ?_, ?_⟩
+  · exact bind_total m k r t1 (fun a ha => ((hk a) _ o1 (s1 a ha).2).1)
+  · exact bind_rdok m k r o1 (fun a ha => ((hk a) _ o1 (s1 a ha).2).2.1)
+  · intro b hb
+    obtain ⟨a, ha, hkb, heq⟩ := bind_ok_inv m k r b hb
+    obtain ⟨lt1, le0⟩ := s1 a ha
+    obtain ⟨_, _, s2⟩ := (hk a) _ o1 le0
+    obtain ⟨_, le2, le3⟩ := s2 b hkb
+    rw [heq]
+    exact ⟨Nat.lt_of_lt_of_le lt1 le2, le3⟩
+
+theorem good_of_strict {α} (f : File) (m : RdM α) (h : Strict f m) : Good f m (fun _ => True) := by
+  intro r hr hl
+  obtain ⟨t, o, s⟩ := h r hr hl
+  exact ⟨t, o, fun a ha => ⟨trivial, Nat.le_of_lt (s a ha).1, (s a ha).2⟩⟩
+
+theorem good_weaken {α} (f : File) (m : RdM α) (P Q : α → Prop) (h : Good f m P) (hpq : ∀ a, P a → Q a) : Good f m Q := by
+  intro r hr hl
+  obtain ⟨t, o, s⟩ := h r hr hl
+  exact ⟨t, o, fun a ha => ⟨hpq a (s a ha).1, (s a ha).2⟩⟩
+
+/-! ### the basic actions -/
+
+theorem good_readSimple (f : File) : Good f (readSimple f) (fun s => s.off < two32 ∧ s.sz < two32) := by
+  intro r hr _
+  refine ⟨readSimple_total f r, readSimple_rdok f r, ?_⟩
+  intro s hs
+  have := readSimple_ok f r s hr hs
+  exact ⟨⟨this.1, this.2.1⟩, this.2.2.1, this.2.2.2.1⟩
+
+theorem rdByte_ok (f : File) (r : Rd) (b : Nat) (hr : RdOk r) (h : (rdByte f r).1 = .ok b) :
+    (rdByte f r).2.off = r.off + 1 ∧ r.off + 1 ≤ f.data.length := by
+  unfold rdByte at h ⊢
+  cases hrd : f.read r.off 1 with
+  | ok bs =>
+    have hb := read_ok_bounds f r.off 1 bs hrd
+    have hr' : r.off < two32 := hr
+    have : (r.off + 1) % two32 = r.off + 1 := by
+      unfold two32 at *
+      omega
+    rw [this] at hb
+    cases bs <;> simp only <;> exact ⟨this, hb.2⟩
+  | err e => rw [hrd] at h; cases h
+  | panic s => rw [hrd] at h; cases h
+  | diverge => rw [hrd] at h; cases h
+
+theorem rdVarintAux_ok (f : File) : ∀ (fuel i x s : Nat) (r : Rd) (v : Nat), RdOk r →
+    (rdVarintAux f fuel i x s r).1 = .ok v →
+    r.off < (rdVarintAux f fuel i x s r).2.off ∧ (rdVarintAux f fuel i x s r).2.off ≤ f.data.length := by
+  intro fuel
+  induction fuel with
+  | zero => intro i x s r v _ h; simp [rdVarintAux] at h
+  | succ fuel ih =>
+    intro i x s r v hr h
+    unfold rdVarintAux at h ⊢
+    have hro := rdByte_off f r
+    cases hb : rdByte f r with
+    | mk o r' =>
+      rw [hb] at h hro
+      cases o with
+      | ok b =>
+        have e1 : (rdByte f r).1 = .ok b := by rw [hb]
+        have k := rdByte_ok f r b hr e1
+        rw [hb] at k
+        dsimp only at k h ⊢
+        split
+        · rename_i hlt
+          simp only [hlt, if_true] at h
+          split
+          · rename_i hov; simp [hov] at h
+          · dsimp only
+            exact ⟨by omega, by omega⟩
+        · rename_i hge
+          simp only [hge, if_false] at h
+          have := ih (i + 1) _ (s + 7) r' v hro h
+          exact ⟨by omega, this.2⟩
+      | err e => simp at h
+      | panic p => simp at h
+      | diverge => simp at h
+
+theorem strict_rdVarint (f : File) : Strict f (rdVarint f) := by
+  intro r hr _
+  have t := rdVarintAux_total f 10 0 0 0 r hr
+  refine ⟨t.1, t.2, ?_⟩
+  intro v hv
+  exact rdVarintAux_ok f 10 0 0 0 r v hr hv
+
+theorem strict_rdStr (f : File) : Strict f (rdStr f) := by
+  intro r hr hl
+  obtain ⟨t1, o1, s1⟩ := strict_rdVarint f r hr hl
+  refine ⟨rdStr_total f r hr, ?_, ?_⟩
+  · unfold rdStr
+    cases hv : rdVarint f r with
+    | mk o r' =>
+      rw [hv] at o1
+      cases o with
+      | ok slen =>
+        simp only
+        cases f.read r'.off (slen % two32) <;> first | exact Nat.mod_lt _ two32_pos | exact o1
+      | err e => exact o1
+      | panic p => exact o1
+      | diverge => exact o1
+  · intro b hb
+    unfold rdStr at hb ⊢
+    cases hv : rdVarint f r with
+    | mk o r' =>
+      rw [hv] at hb s1
+      cases o with
+      | ok slen =>
+        simp only at hb ⊢
+        have k := s1 slen rfl
+        simp only at k
+        cases hrd : f.read r'.off (slen % two32) with
+        | ok bs =>
+          have bb := read_ok_bounds f r'.off (slen % two32) bs hrd
+          simp only
+          exact ⟨by omega, bb.2⟩
+        | err e => rw [hrd] at hb; cases hb
+        | panic p => rw [hrd] at hb; cases hb
+        | diverge => rw [hrd] at hb; cases hb
+      | err e => simp at hb
+      | panic p => simp at hb
+      | diverge => simp at hb
+
+/-! ### sections, the loop body, the loop -/
+
+theorem good_secRead (f : File) (k : Kind) : Good f (secRead f k) (fun _ => True) := by
+  cases k with
+  | simple =>
+    exact good_bind f _ _ _ _ (good_readSimple f) (fun s _ => good_pure f _ _ trivial)
+  | compound =>
+    refine good_bind f _ _ _ _ (good_readSimple f) (fun d _ => ?_)
+    refine good_bind f _ _ _ _ (good_readSimple f) (fun i hi => ?_)
+    refine good_bind f _ _ (fun _ => True) _ (good_lift f _ _ (readSectionBE_total 4 (by omega) f i hi.1 hi.2) (fun _ _ => trivial))
+      (fun offs _ => good_pure f _ _ trivial)
+  | lazy =>
+    refine good_bind f _ _ _ _ (good_readSimple f) (fun d _ => ?_)
+    exact good_bind f _ _ _ _ (good_readSimple f) (fun i _ => good_pure f _ _ trivial)
+
+theorem good_secSkip (f : File) (k : Kind) : Good f (secSkip f k) (fun _ => True) := by
+  have hc : Good f (RdM.bind (readSimple f) fun _ => RdM.bind (readSimple f) fun i =>
+      RdM.bind (RdM.lift (f.read i.off i.sz)) fun _ => RdM.pure (some i)) (fun _ => True) := by
+    refine good_bind f _ _ _ _ (good_readSimple f) (fun d _ => ?_)
+    refine good_bind f _ _ _ _ (good_readSimple f) (fun i _ => ?_)
+    exact good_bind f _ _ (fun _ => True) _ (good_lift f _ _ (read_total f i.off i.sz) (fun _ _ => trivial))
+      (fun _ _ => good_pure f _ _ trivial)
+  cases k with
+  | simple => exact good_bind f _ _ _ _ (good_readSimple f) (fun s _ => good_pure f _ _ trivial)
+  | compound => exact hc
+  | lazy => exact hc
+
+theorem good_skipThen (f : File) (k : Kind) (st : TocState) :
+    Good f (RdM.bind (secSkip f k) fun _ => RdM.pure st) (fun _ => True) :=
+  good_bind f _ _ _ _ (good_secSkip f k) (fun _ _ => good_pure f _ _ trivial)
+
+theorem good_unknownKind (f : File) : Good f (RdM.lift (.err "unknown section kind") : RdM TocState) (fun _ => True) :=
+  good_lift f _ _ (by simp [Total, Outcome.isOkOrErr]) (fun _ _ => trivial)
+
+/-- what follows tag and kind: a `read`, a `skip` or the unknown-kind error — never a panic -/
+theorem good_tocEntry (f : File) (tags : List Bytes) (st : TocState) (tagBytes : Bytes) (kind : Nat) :
+    Good f (tocEntry f tags st tagBytes kind) (fun _ => True) := by
+  unfold tocEntry
+  simp only
+  split
+  · rename_i tag k _
+    split
+    · split
+      · refine good_bind f _ _ _ _ (good_secSkip f k) (fun oi _ => ?_)
+        cases oi with
+        | some i => exact good_pure f _ _ trivial
+        | none => exact good_pure f _ _ trivial
+      · exact good_bind f _ _ _ _ (good_secRead f k) (fun v _ => good_pure f _ _ trivial)
+    · split
+      · exact good_skipThen f _ st
+      · exact good_unknownKind f
+  · split
+    · exact good_skipThen f _ st
+    · exact good_unknownKind f
+
+/-- **one iteration of the tagged loop** is total and, when it succeeds, has moved the reader strictly forward inside
+    the mapping (a tag is at least its one-byte length prefix) -/
+theorem strict_tocStep (f : File) (tags : List Bytes) (st : TocState) : Strict f (tocStep f tags st) := by
+  unfold tocStep
+  refine strict_bind f _ _ (fun _ => True) (strict_rdStr f) (fun tagBytes => ?_)
+  exact good_bind f _ _ _ _ (good_of_strict f _ (strict_rdVarint f)) (fun kind _ => good_tocEntry f tags st tagBytes kind)
+
+/-- **the tagged loop terminates**: `len(mapping) + 1 - r.off` iterations of fuel always suffice -/
+theorem tocLoop_total (f : File) (tags : List Bytes) (stop : Nat) : ∀ (fuel : Nat) (st : TocState) (r : Rd),
+    RdOk r → r.off ≤ f.data.length → f.data.length + 1 - r.off < fuel → Total (tocLoop f tags stop fuel st r) := by
+  intro fuel
+  induction fuel with
+  | zero => intro st r _ _ h; omega
+  | succ fuel ih =>
+    intro st r hr hl hf
+    unfold tocLoop
+    split
+    · obtain ⟨t, o, s⟩ := strict_tocStep f tags st r hr hl
+      cases hs : (tocStep f tags st r).1 with
+      | ok st' =>
+        simp only
+        obtain ⟨lt, le⟩ := s st' hs
+        exact ih st' _ o le (by omega)
+      | err e => simp [Total, Outcome.isOkOrErr]
+      | panic p => rw [hs] at t; simp [Total, Outcome.isOkOrErr] at t
+      | diverge => rw [hs] at t; simp [Total, Outcome.isOkOrErr] at t
+    · simp [Total, Outcome.isOkOrErr]
+
+/-- the legacy branch reads a fixed list of sections -/
+theorem tocLegacy_total (f : File) : ∀ (secs : List (String × Kind)) (st : TocState) (r : Rd),
+    RdOk r → r.off ≤ f.data.length → Total (tocLegacy f secs st r) := by
+  intro secs
+  induction secs with
+  | nil => intro st r _ _; simp [tocLegacy, Total, Outcome.isOkOrErr]
+  | cons p rest ih =>
+    intro st r hr hl
+    obtain ⟨tag, k⟩ := p
+    unfold tocLegacy
+    obtain ⟨t, o, s⟩ := good_secRead f k r hr hl
+    cases hs : (secRead f k r).1 with
+    | ok v =>
+      simp only
+      exact ih _ _ o (s v hs).2.2
+    | err e => simp [Total, Outcome.isOkOrErr]
+    | panic p => rw [hs] at t; simp [Total, Outcome.isOkOrErr] at t
+    | diverge => rw [hs] at t; simp [Total, Outcome.isOkOrErr] at t
+
+theorem readTOCAfter_total (f : File) (tags : List Bytes) (hdr : Outcome (SimpleSection × Nat × Nat)) (ht : Total hdr)
+    (hok : ∀ toc n pos, hdr = .ok (toc, n, pos) → pos < two32 ∧ pos ≤ f.data.length) :
+    Total (readTOCAfter f tags hdr) := by
+  unfold readTOCAfter
+  cases hdr with
+  | ok x =>
+    obtain ⟨toc, count, pos⟩ := x
+    have hp := hok toc count pos rfl
+    simp only
+    split
+    · exact tocLoop_total f tags _ _ [] ⟨pos⟩ hp.1 hp.2 (by simp only; omega)
+    · split
+      · exact tocLegacy_total f _ [] ⟨pos⟩ hp.1 hp.2
+      · split
+        · exact tocLegacy_total f _ [] ⟨pos⟩ hp.1 hp.2
+        · simp [Total, Outcome.isOkOrErr]
+  | err e => simp [Total, Outcome.isOkOrErr]
+  | panic p => simp [Total, Outcome.isOkOrErr] at ht
+  | diverge => simp [Total, Outcome.isOkOrErr] at ht
+
+/-- **`readTOCSections` is total** for every file and every tag filter: header, then the tagged loop (unknown tags,
+    kind mismatches, unknown kinds, filtered sections) or the legacy list -/
+theorem readTOCSections_total (f : File) (tags : List Bytes) : Total (readTOCSections f tags) := by
+  unfold readTOCSections
+  exact readTOCAfter_total f tags _ (readHeader_total f)
+    (fun toc n pos h => by have := readHeader_ok f toc n pos h; exact ⟨this.1, this.2.1⟩)
+
 end ZoektModel.C11.L
